@@ -31,7 +31,8 @@ def impl_result(fn, conv=canon):
     except Exception as e:  # noqa
         code = TAGS.get(type(e).__name__)
         if code is None:
-            raise
+            # an exception the model has no tag for: never equal to a model answer
+            return [2, canon(type(e).__name__)]
         return raised(code)
 
 
@@ -39,6 +40,15 @@ def mk(side):
     from compare_locales.paths.matcher import Matcher
     pat, env, root = side
     return Matcher(pat, env=dict(env), root=root)
+
+
+def try_match(chk, side, path, what):
+    """match for an oracle: an exception where the construction guarantees a match is a failure"""
+    try:
+        return True, mk(side).match(path)
+    except Exception as e:  # noqa
+        chk.fail(what + "-raised", {"side": side, "path": path}, repr(e))
+        return False, None
 
 
 def side_sx(side):
@@ -118,7 +128,7 @@ def impl_views(m_fn, path):
     except Exception as e:  # noqa
         code = TAGS.get(type(e).__name__)
         if code is None:
-            raise
+            return [2, canon(type(e).__name__)]
         return raised(code)
     return ok([impl_result(lambda: str(m)), impl_result(lambda: m.prefix),
                impl_result(lambda: m.match(path), canon_dict)])
